@@ -39,17 +39,20 @@ pub const FAULTS: [(&str, Option<&str>); 21] = [
     ("banner-exit0-without-reading", Some("printf 'fn main() {}\\n'\nexit 0\n")),
     // the same, but the banner is valid Rust-looking text and the stub lingers a moment before exiting
     ("banner-linger-exit0-without-reading", Some("printf '// formatted\\n'\nsleep 0.2\nexit 0\n")),
+    // (all of these read their WHOLE input before they print anything, like rustfmt does: a filter that streams - `cat`, `tr` - fills
+    // the stdout pipe while the library is still writing stdin, and a module of several hundred KB then never comes back; a streaming
+    // formatter is none of the situations the property lists, see DESIGN 9.20)
     // "formatters" that read everything, exit 0 and print a DIFFERENT program that still lexes: the library must notice (it compares
     // token texts) and return the unformatted program - a weakened comparison (trailing `;` ignored, prefix accepted, ..) lets them through
     ("adds-semicolons-before-closing-braces", Some("sed 's/ }/ ; }/g'\nexit 0\n")),
     ("drops-semicolons-before-closing-braces", Some("sed 's/ ; }/ }/g'\nexit 0\n")),
     ("drops-the-last-item", Some("sed 's/pub fn create_pipeline_layout.*$//'\nexit 0\n")),
-    ("appends-an-item", Some("cat\nprintf ' pub fn extra_item ( ) { }\\n'\nexit 0\n")),
+    ("appends-an-item", Some("f=$(mktemp)\ncat >\"$f\"\ncat \"$f\"\nprintf ' pub fn extra_item ( ) { }\\n'\nrm -f \"$f\"\nexit 0\n")),
     ("renames-an-identifier", Some("sed 's/create_shader_module/create_shader_modul3/g'\nexit 0\n")),
     // formatters that only change the CONTENT of a string literal (the embedded WGSL source): a marker that occurs nowhere but in a
     // comment of the shader, and every non-ASCII byte (an encoding-unclean formatter); identity on shaders without them
     ("rewrites-string-literal-content", Some("sed 's/ZQXJ/ZQXK/g'\nexit 0\n")),
-    ("mangles-non-ascii-bytes", Some("LC_ALL=C tr '\\200-\\377' '?'\nexit 0\n")),
+    ("mangles-non-ascii-bytes", Some("f=$(mktemp)\ncat >\"$f\"\nLC_ALL=C tr '\\200-\\377' '?' <\"$f\"\nrm -f \"$f\"\nexit 0\n")),
 ];
 
 /// Canonical token text: trailing commas before a closing delimiter dropped.
